@@ -253,6 +253,12 @@ def part_c(ctx):
     for i in range(nfiles):
         seed = ctx.seed * 100003 + i
         case = absvcf.gen_case(seed, overlong=(0.3 if i % 2 else 0.0))
+        if i % 5 == 2:
+            # a site with 130 ALT alleles whose calls use allele numbers around the int8 boundary: the genotype array must widen
+            from drivers import c01 as _c01
+            cands = [k for k, x in enumerate(case["recs"]) if x["gt"] is not None]
+            if cands:
+                _c01.widen(case, cands[len(cands) // 2])
         text = absvcf.to_text(case)
         d = os.path.join(ctx.work, f"c10_{i}")
         os.makedirs(d)
@@ -301,6 +307,19 @@ def part_c(ctx):
                 ctx.fail(doc, dict(error=f"{type(e).__name__}: {e}"[:300]), "encoding with the generated schema failed: the schema does not fit the store")
                 continue
             ref = store_arrays(ref_path)
+            # the genotype array is laid out by generate itself (not from a field specification): every allele number of the
+            # intermediate store must come out of the encode unchanged
+            if "call_genotype" in ref and "FORMAT/GT" in store.fields:
+                g = ref["call_genotype"][5]
+                for v, val in enumerate(store.fields["FORMAT/GT"].values):
+                    if val is None:
+                        continue
+                    al = np.asarray(val)[:, :-1]
+                    got_ = g[v][:, : al.shape[1]]
+                    if not np.array_equal(np.where(al >= 0, al, got_), got_):
+                        ctx.fail(doc, dict(record=v, stored=got_.tolist()[:4], source=al.tolist()[:4], dtype=str(g.dtype)),
+                                 f"generated schema: call_genotype ({g.dtype}) does not hold the allele numbers of the store: encoding clips")
+                        break
             optional = [sp.name for sp in schema.fields if sp.vcf_field and "/" in sp.vcf_field]
             if len(optional) <= 3:
                 subsets = [set(c) for k in range(len(optional) + 1) for c in itertools.combinations(optional, k)]
